@@ -48,8 +48,10 @@ impl Report {
     }
 
     pub fn violation(&mut self, sig: impl Into<String>, msg: impl Into<String>, replay: Value) {
-        if self.violations.len() < 50 {
-            self.violations.push(Violation { sig: sig.into(), msg: msg.into(), replay });
+        let sig = sig.into();
+        // keep at most 3 witnesses per signature so one recurring finding cannot crowd out others
+        if self.violations.len() < 50 && self.violations.iter().filter(|v| v.sig == sig).count() < 3 {
+            self.violations.push(Violation { sig, msg: msg.into(), replay });
         }
         self.count("violations_total", 1);
     }
@@ -61,7 +63,7 @@ impl Report {
             self.sample(s);
         }
         for v in other.violations {
-            if self.violations.len() < 50 {
+            if self.violations.len() < 50 && self.violations.iter().filter(|x| x.sig == v.sig).count() < 3 {
                 self.violations.push(v);
             }
         }
